@@ -161,10 +161,12 @@ def optimiser_part(ck, tier):
                                     "caller_unchanged": unchanged(((nx, kx), (ny, ky), (ne, ke)))})
                 # optimisers built with the DEFAULT acquisition are independent objects: construct and use another one, then look again
                 if hi % 4 == 0:
-                    mine = GpOptimiser(x=x0, y=y0, y_err=e0, bounds=bounds)
+                    # (with the default acquisition, or -- every other time -- with ONE acquisition object given to both optimisers)
+                    shared = {} if hi % 8 == 0 else {"acquisition": acq()}
+                    mine = GpOptimiser(x=x0, y=y0, y_err=e0, bounds=bounds, **shared)
                     evs.append({"ev": "Init", "ys": [int(v) for v in y0], "n": int(len(mine.y)), "gp_n": int(mine.gp.y.size),
                                 "mu_max": int(round(float(mine.acquisition.mu_max))), "caller_unchanged": unchanged()})
-                    other = GpOptimiser(x=x0 + 0.125, y=y0 + 7.0, y_err=e0, bounds=bounds)
+                    other = GpOptimiser(x=x0 + 0.125, y=y0 + 7.0, y_err=e0, bounds=bounds, **shared)
                     other.add_evaluation(np.array([0.25] * dim), np.array(30.0), new_y_err=np.array(0.15))
                     evs.append({"ev": "Other", "n": int(len(mine.y)), "gp_n": int(mine.gp.y.size), "mu_max": int(round(float(mine.acquisition.mu_max))),
                                 "own_model": bool(mine.acquisition.gp is mine.gp)})
